@@ -68,6 +68,11 @@ def gen_cases(tier, seed):
                           "slice_rel": r % 3,   # 0: fewer than, 1: equal to, 2: not a multiple
                           "cli": storage == "sharded" or rnd.random() < 0.05,
                           "vseed": rnd.randrange(2 ** 32)})
+    # directed: long stacks (more than 256 slices of tiny images), several slice groups
+    for code in rnd.sample(CODES, 6 if tier == "quick" else 24):
+        cases.append({"code": code, "insize": [3, 2, 300], "chunk": [64, 64, 64],
+                      "channels": "1", "dtype": "uint8", "fmt": "png", "storage": "flat",
+                      "slice_rel": 3, "cli": False, "vseed": rnd.randrange(2 ** 32)})
     return cases
 
 
@@ -102,6 +107,8 @@ def run_case(case):
     depth = cs[AX[code[2]][0]]
     if case["slice_rel"] == 0:
         ns = max(1, depth - 1)
+    elif case["slice_rel"] == 3:
+        ns = case["insize"][2]
     elif case["slice_rel"] == 1:
         ns = depth
     else:
@@ -121,6 +128,7 @@ def run_case(case):
     obs = {"conversions": 0, "codes": {code: 1}, "voxels_compared": 0,
            "slice_groups": {"fewer": int(ns < depth), "equal": int(ns == depth),
                             "partial_last": int(ns > depth and ns % depth != 0)},
+           "more_than_256_slices": int(ns > 256),
            "reversed_slice_axis": int(code[2] in "LPI"), "rgb": int(rgb),
            "multi_dir": int(ndirs > 1), "uint16": int(dt == np.uint16), "tiff": int(fmt == "tif"),
            "cli_runs": 0, "storage": {case["storage"]: 1}}
@@ -223,4 +231,5 @@ def gates(obs, tier):
         "uint16_and_tiff": obs.get("uint16", 0) > 0 and obs.get("tiff", 0) > 0,
         "all_storage_options": len(obs.get("storage", {})) == 5,
         "command_line_runs": obs.get("cli_runs", 0) > 10,
+        "stacks_longer_than_256_slices": obs.get("more_than_256_slices", 0) > 0,
     }
